@@ -8,6 +8,7 @@ import (
 	"encoding/json"
 	"fmt"
 	"io"
+	"sort"
 	"strings"
 	"testing"
 
@@ -20,16 +21,16 @@ import (
 
 type C07Plan struct {
 	Repo      RepoSpec `json:"repo"`
-	Have      []int    `json:"have"`       // commits (closed under ancestors by the executor) already at the destination
+	Have      []int    `json:"have"`        // commits (closed under ancestors by the executor) already at the destination
 	HaveNoTbl []int    `json:"have_no_tbl"` // of those, commits whose table is absent at the destination
-	LoneObjs  int      `json:"lone_objs"`  // number of random src blocks/tables copied to dst beforehand
+	LoneObjs  int      `json:"lone_objs"`   // number of random src blocks/tables copied to dst beforehand
 	LoneSeed  uint64   `json:"lone_seed"`
 	Tips      []int    `json:"tips"`
-	Depth     int      `json:"depth"`      // 0 = all tables; d>0: only tables of commits within d of a tip
+	Depth     int      `json:"depth"` // 0 = all tables; d>0: only tables of commits within d of a tip
 	MaxPack   uint64   `json:"max_pack"`
 	Cuts      []int    `json:"cuts"`
 	EOFLast   bool     `json:"eof_with_last"`
-	Adversary string   `json:"adversary,omitempty"` // "", "child-first", "table-before-blocks"
+	Adversary string   `json:"adversary,omitempty"` // "", "child-first", "table-before-blocks", "damaged-table" (after the honest transfer the source offers a copy of a table with two block indices exchanged)
 	SrcFault  *Fault   `json:"src_fault,omitempty"` // a read of the sender's store fails while it builds the packfiles
 	// DstFault: a first attempt of the whole transfer runs with this write fault on the destination store and is
 	// allowed to fail; the transfer is then repeated without fault, sending only what the destination still lacks
@@ -47,7 +48,7 @@ func init() {
 			if rz := r.Sub("zones"); rz.Chance(0.4) {
 				// authors in several zones, among them negative ones that are not whole hours
 				for k := rz.Range(1, 4); k > 0; k-- {
-					p.Repo.Graph.Zones = append(p.Repo.Graph.Zones, Pick(rz, []int{0, 60, -60, 330, 345, -210, -570, -150, 765, -720, 840, -1}))
+					p.Repo.Graph.Zones = append(p.Repo.Graph.Zones, Pick(rz, []int{0, 60, -60, 330, 345, -210, -570, -150, 765, -720, 840, -1, -45, -30}))
 				}
 			}
 			if r.Chance(0.006) {
@@ -88,6 +89,9 @@ func init() {
 			p.EOFLast = r.Chance(0.3)
 			if r.Chance(0.12) {
 				p.Adversary = Pick(r, []string{"child-first", "table-before-blocks"})
+				if r.Sub("damaged").Chance(0.4) {
+					p.Adversary = "damaged-table"
+				}
 			} else if r.Chance(0.15) {
 				p.DstFault = &Fault{Op: Pick(r, []string{"set", "set", "write"}), Prefix: Pick(r, []string{"tblsum/", "tblsum/", "tblidx/", "tbl/", "blkidx/", "blk/", "com/", ""}), Nth: r.Range(1, 10)}
 			} else if r.Chance(0.15) {
@@ -254,9 +258,16 @@ func execC07(t *testing.T, raw json.RawMessage, res *Result) {
 		}
 	}
 
-	if p.Adversary != "" {
+	if p.Adversary != "" && p.Adversary != "damaged-table" {
 		c07Adversary(&p, res, src, dst, br, toSend, tablesToSend)
 		return
+	}
+	if p.Adversary == "damaged-table" {
+		defer func() {
+			if res.Verdict == "" || res.Verdict == "ok" {
+				c07DamagedTable(res, src, dst, tablesToSend)
+			}
+		}()
 	}
 	var retryTables map[string]struct{}
 
@@ -549,5 +560,54 @@ func c07Adversary(p *C07Plan, res *Result, src, dst *Store, br *BuiltRepo, toSen
 			res.Nontrivial = true
 			return
 		}
+	}
+}
+
+// c07DamagedTable: the honest transfer is over, so the destination holds every block and block index of the
+// tables sent. The source now offers a damaged copy of one of them - the same blocks, the block indices of two
+// blocks exchanged - under a new commit. The receiver rebuilds the indices and must refuse; whatever it answers,
+// a table it stores must be sound.
+func c07DamagedTable(res *Result, src, dst *Store, tables map[string]struct{}) {
+	var names []string
+	for ts := range tables {
+		names = append(names, ts)
+	}
+	sort.Strings(names)
+	for _, ts := range names {
+		tbl, err := objects.GetTable(src, []byte(ts))
+		if err != nil || len(tbl.Blocks) < 2 || bytes.Equal(tbl.BlockIndices[0], tbl.BlockIndices[1]) {
+			continue
+		}
+		if _, ok := dst.Raw("tbl/" + ts); !ok {
+			continue
+		}
+		bad := *tbl
+		bad.BlockIndices = append([][]byte(nil), tbl.BlockIndices...)
+		bad.BlockIndices[0], bad.BlockIndices[1] = bad.BlockIndices[1], bad.BlockIndices[0]
+		var tb bytes.Buffer
+		bad.WriteTo(&tb)
+		badSum := meowSum(tb.Bytes())
+		com := &objects.Commit{Table: badSum, AuthorName: "a", AuthorEmail: "e", Message: "damaged", Time: bubbleEpoch}
+		var cb bytes.Buffer
+		com.WriteTo(&cb)
+		var pf bytes.Buffer
+		pw, _ := packfile.NewPackfileWriter(&pf)
+		pw.WriteObject(packfile.ObjectTable, tb.Bytes())
+		pw.WriteObject(packfile.ObjectCommit, cb.Bytes())
+		pr, err := packfile.NewPackfileReader(io.NopCloser(bytes.NewReader(pf.Bytes())))
+		if err != nil {
+			res.Invalid("%v", err)
+			return
+		}
+		_, rerr := apiutils.NewObjectReceiver(dst, [][]byte{meowSum(cb.Bytes())}, logr.Discard()).Receive(pr, nil)
+		dst.TakeMonErrs()
+		if _, ok := dst.Raw("tbl/" + string(badSum)); ok {
+			if c, d := CheckTable(dst, badSum); c != "" {
+				res.Violate("damaged-table-stored:"+c, "a table whose block indices are exchanged between two blocks was received (err %v) and stored: %s", rerr, d)
+				return
+			}
+		}
+		res.probe("adversary_damaged_table", 1)
+		return
 	}
 }
